@@ -452,4 +452,88 @@ theorem rt_obsRt (flex : Bool) (init : UInt16) (calls : List C12.Call)
   rw [this]
   exact rt_from flex init calls _ {} (Nat.mod_lt _ (by decide)) hh
 
+/-! ### the whole history with `FlexibleMode` set per call -/
+
+/-- setting the exported field leaves the picture-id state alone -/
+theorem payloadF_ini (flex0 flex : Bool) (init : UInt16) (pid : Nat) (hp : pid < 32768) (mtu : UInt16)
+    (i : Option Bytes) :
+    vp9PayloadF (ini flex0 init pid) flex mtu i =
+      ((if flex then vp9PayloadFlexible pid.toUInt16 mtu.toNat (i.getD [])
+        else vp9PayloadNonFlexible pid.toUInt16 mtu.toNat (i.getD [])),
+       ini flex init ((pid + 1) % 32768)) := by
+  have : ({ ini flex0 init pid with flexible := flex } : VP9Pay) = ini flex init pid := rfl
+  rw [vp9PayloadF, this, payload_ini flex init pid hp]
+
+theorem payloadF_first (flex0 flex : Bool) (init : UInt16) (mtu : UInt16) (i : Option Bytes) :
+    vp9PayloadF { flexible := flex0, init := init } flex mtu i =
+      vp9PayloadF (ini flex0 init (init.toNat % 32768)) flex mtu i := by
+  simp only [vp9PayloadF, vp9Payload, ini, Bool.false_eq_true, if_false, if_true, mask15]
+
+/-- every initialised payloader state (whatever `FlexibleMode` was before, picture id `pid`), every
+    receiver state, every history of (flag, call) pairs -/
+theorem rtFlip_from (init : UInt16) : ∀ (calls : List (Bool × C12.Call)) (flex0 : Bool) (pid : Nat) (p : VP9Packet),
+    pid < 32768 → (∀ fc ∈ calls, fc.1 = false → HdrFacts fc.2) →
+    C12.rtFlipFrom pid calls (C12.obsRtFlipFrom (ini flex0 init pid) p calls) = true := by
+  intro calls
+  induction calls with
+  | nil => intro _ pid p _ _; rfl
+  | cons fc cs ih =>
+    intro flex0 pid p hp hh
+    obtain ⟨flex, c⟩ := fc
+    simp only [C12.obsRtFlipFrom, payloadF_ini flex0 flex init pid hp, C12.rtFlipFrom]
+    have hrest : ∀ p', C12.rtFlipFrom ((pid + 1) % 32768) cs
+        (C12.obsRtFlipFrom (ini flex init ((pid + 1) % 32768)) p' cs) = true :=
+      fun p' => ih flex _ p' (Nat.mod_lt _ (by decide)) (fun c' hc' => hh c' (List.mem_cons_of_mem _ hc'))
+    cases hprop : C12.proper flex c
+    · simp only [Bool.not_false, Bool.true_or, Bool.true_and]
+      exact hrest _
+    · simp only [Bool.not_true, Bool.false_or, Bool.and_eq_true]
+      refine ⟨?_, hrest _⟩
+      cases flex
+      · exact nonflex_frameOk pid hp c (hh (false, c) List.mem_cons_self rfl) hprop p
+      · simp only [C12.proper, if_true, Bool.and_eq_true, Bool.not_eq_true', List.isEmpty_eq_false_iff,
+          decide_eq_true_eq] at hprop
+        exact flex_frameOk pid hp _ _ _ hprop.2 hprop.1 p
+
+theorem obsRtFlipFrom_first (flex0 : Bool) (init : UInt16) (p : VP9Packet) (calls : List (Bool × C12.Call)) :
+    C12.obsRtFlipFrom { flexible := flex0, init := init } p calls =
+      C12.obsRtFlipFrom (ini flex0 init (init.toNat % 32768)) p calls := by
+  cases calls with
+  | nil => rfl
+  | cons c cs => obtain ⟨f, c⟩ := c; simp only [C12.obsRtFlipFrom, payloadF_first]
+
+theorem rtFlip_obsRtFlip (init : UInt16) (calls : List (Bool × C12.Call))
+    (hh : ∀ fc ∈ calls, fc.1 = false → HdrFacts fc.2) :
+    C12.rtFlip init calls (C12.obsRtFlip init calls) = true := by
+  unfold C12.rtFlip C12.obsRtFlip
+  rw [obsRtFlipFrom_first]
+  exact rtFlip_from init calls false _ {} (Nat.mod_lt _ (by decide)) hh
+
+/-- a history whose flag never changes is a history in the sense of `C12.rt` -/
+theorem rtFlipFrom_const (flex : Bool) : ∀ (calls : List C12.Call) (pid : Nat) (o : List (List C12.FragObs)),
+    C12.rtFlipFrom pid (calls.map (fun c => (flex, c))) o = C12.rtFrom flex pid calls o := by
+  intro calls
+  induction calls with
+  | nil => intro pid o; cases o <;> rfl
+  | cons c cs ih =>
+    intro pid o
+    cases o with
+    | nil => rfl
+    | cons o os => simp only [List.map_cons, C12.rtFlipFrom, C12.rtFrom, ih]
+
+theorem obsRtFlipFrom_const (flex : Bool) : ∀ (calls : List C12.Call) (st : VP9Pay) (p : VP9Packet),
+    C12.obsRtFlipFrom st p (calls.map (fun c => (flex, c))) =
+      C12.obsRtFrom { st with flexible := flex } p calls := by
+  intro calls
+  induction calls with
+  | nil => intro st p; rfl
+  | cons c cs ih =>
+    intro st p
+    have h2 : ∀ st' : VP9Pay, st'.flexible = flex → ({ st' with flexible := flex } : VP9Pay) = st' := by
+      intro st' h; cases st'; simp_all
+    have h3 : (vp9Payload { st with flexible := flex } c.mtu c.frame).2.flexible = flex := by
+      simp only [vp9Payload]; split <;> rfl
+    simp only [List.map_cons, C12.obsRtFlipFrom, C12.obsRtFrom, vp9PayloadF]
+    rw [ih, h2 _ h3]
+
 end Rtp.Proofs.VP9
